@@ -499,6 +499,55 @@ func (c *C) findLineFramed() (ctors []*lineFramedCtor, strays []string) {
 			}
 		}
 	}
+	// wrappers: a function of package resp that hands (text derived from) its own parameters to a constructor's
+	// data parameter is itself a constructor for the purposes of this rule (MakeErrorData -> newSanitizedError)
+	for iter := 0; iter < 3; iter++ {
+		for _, fn := range c.P.allFuncs("resp") {
+			if byFn[fn] != nil || fn.Parent() != nil {
+				continue
+			}
+			for _, b := range fn.Blocks {
+				for _, in := range b.Instrs {
+					call, ok := in.(*ssa.Call)
+					if !ok {
+						continue
+					}
+					inner := byFn[callee(call)]
+					if inner == nil {
+						continue
+					}
+					var ps []int
+					for _, pi := range inner.Params {
+						if pi >= len(call.Call.Args) {
+							continue
+						}
+						backslice(call.Call.Args[pi], func(x ssa.Value) bool {
+							if p, ok := x.(*ssa.Parameter); ok {
+								for i, q := range fn.Params {
+									if q == p {
+										dup := false
+										for _, e := range ps {
+											dup = dup || e == i
+										}
+										if !dup {
+											ps = append(ps, i)
+										}
+									}
+								}
+							}
+							return true
+						})
+					}
+					if len(ps) == 0 {
+						continue
+					}
+					lc := &lineFramedCtor{Fn: fn, Kind: inner.Kind, Sanitised: inner.Sanitised, Params: ps}
+					byFn[fn] = lc
+					ctors = append(ctors, lc)
+				}
+			}
+		}
+	}
 	return
 }
 
